@@ -356,7 +356,7 @@ func (g *G) Case() Input {
 
 func (g *G) varValue(ty string) string {
 	if g.bad() {
-		return g.pick([]string{"", "!!", "USD -5", "7/3", "a b", "-1"})
+		return g.pick([]string{"", "!!", "USD -5", "7/3", "a b", "-1", "null"})
 	}
 	switch ty {
 	case "account":
